@@ -20,14 +20,21 @@ Proof. exact staged_publication. Qed.
 Print Assumptions C17_staged_publication.
 
 (* fidelity (guarded): an event for p handled while the source holds p's final content c puts c under
-   p's final destination name (all three methods, every kind of file), and duplicated, late or stale
+   p's final destination name (all three methods, every SELECTED kind: include_drf / include_dmd), and duplicated, late or stale
    events and events for other files -- anything that does not rewrite p -- leave it there *)
 Theorem C17_mirrored_equal_partial : forall mc pre p c (created : bool) post,
-  rget p (src (mrun mc pre)) = Some c -> mirrorable p = true -> Forall (no_rewrite p c) post ->
+  rget p (src (mrun mc pre)) = Some c -> selected mc p = true -> Forall (no_rewrite p c) post ->
   exists l, dget (Fin p) (dst (mrun mc (pre ++ (if created then ECreated p else EModified p) :: post)))
             = Some (mkD c true l).
 Proof. exact finalized_mirrored. Qed.
 Print Assumptions C17_mirrored_equal_partial.
+
+(* ... and nothing of a deselected kind is ever mirrored: in no state of any trace does a file that
+   is not selected exist under the destination, neither under its final nor under its tmp. name *)
+Theorem C17_deselected_never_mirrored : forall mc p, selected mc p = false ->
+  forall evs t, In t (mtrace mc evs) -> dget (Fin p) (dst t) = None /\ dget (Tmp p) (dst t) = None.
+Proof. exact deselected_never_mirrored. Qed.
+Print Assumptions C17_deselected_never_mirrored.
 
 (* the unguarded statement ("after the events for a finalized file have been processed the destination
    has its final content") is false in move mode when events are reordered: the count=1 ring buffer
@@ -59,7 +66,7 @@ Print Assumptions C17_move_never_loses.
 
 (* move mode: properties and metadata files are copied, and a properties file stays in the source *)
 Theorem C17_props_and_metadata_copied : forall mc pre p c, m_meth mc = MMove ->
-  kind_md p || kind_prop p = true -> rget p (src (mrun mc pre)) = Some c ->
+  kind_md p || kind_prop p = true -> selected mc p = true -> rget p (src (mrun mc pre)) = Some c ->
   Full (dget (Fin p) (dst (mrun mc (pre ++ [ECreated p])))) c /\
   (kind_prop p = true -> rget p (src (mrun mc (pre ++ [ECreated p]))) = Some c).
 Proof. exact props_and_metadata_copied. Qed.
